@@ -1,1 +1,151 @@
-HANDLERS = {}
+"""Property handlers that do not follow the plain batch scheme."""
+import os, json, time, hashlib
+from . import ws, batch
+from .ws import log
+
+
+def _main():
+    import sys
+    return sys.modules["vcheck.main"]
+
+
+# ------------------------------------------------------------------------------------------------
+# C03: documented type mapping, always compiles, no unsafe, keyword names, derive sets
+# ------------------------------------------------------------------------------------------------
+C03_RULE = ("grammars: profile 'types' (arity/type-set combinations across nested constructs, Rust keywords as rule and field names, "
+            "boxes on subsets of variants, override-only rules, @string (+-@position, with single- and multi-type fields inside), @char, "
+            "@extern, field-less rules, @position, @check, @memoize); configurations cycle over derive sets [Debug,Clone], "
+            "[Debug,Clone,PartialEq,Eq], [Clone], [] and with/without user context type. Oracle: rustc on the generated module together "
+            "with exact-type assertions emitted from the independent static oracle (exhaustive destructuring of every struct, exhaustive "
+            "match over every enum, alias equality in both directions, PegPosition impl) under #![forbid(unsafe_code)], plus a token scan "
+            "for unsafe/static/thread_local. evaluations = grammar x configuration compiled; non-trivial = grammar has a field with "
+            "Option/Vec arity or several types, a boxed field, an override rule, or a keyword name; distinct by grammar hash.")
+
+
+def _type_classes(spec):
+    """classification from the model (python side, simple walk)"""
+    classes = set()
+    kw = {"as", "break", "const", "continue", "else", "enum", "extern", "false", "fn", "for", "if", "impl", "in", "let", "loop", "match",
+          "mod", "move", "mut", "pub", "ref", "return", "static", "struct", "trait", "true", "type", "unsafe", "use", "where", "while",
+          "async", "await", "dyn", "abstract", "become", "box", "do", "final", "macro", "override", "priv", "typeof", "unsized", "virtual",
+          "yield", "try", "gen", "union", "auto", "default"}
+
+    def walk(e, depth_kinds):
+        if isinstance(e, str):
+            return
+        for k, v in e.items():
+            if k == "Ref":
+                f = v["field"]
+                if f != "None":
+                    if "Opt" in depth_kinds:
+                        classes.add("field_under_optional")
+                    if "Star" in depth_kinds or "Plus" in depth_kinds:
+                        classes.add("field_under_closure")
+                    if "Choice" in depth_kinds:
+                        classes.add("field_under_choice")
+                    if v["boxed"]:
+                        classes.add("boxed")
+                    if f == "Override":
+                        classes.add("override")
+                    elif isinstance(f, dict) and f.get("Named") in kw:
+                        classes.add("keyword_field")
+            elif k in ("Choice", "Seq"):
+                for x in v:
+                    walk(x, depth_kinds | {k})
+            elif k in ("Group", "Opt", "Star", "Plus", "Not", "And"):
+                walk(v, depth_kinds | {k})
+    for r in spec["model"]["rules"]:
+        if "Normal" in r:
+            n = r["Normal"]
+            if n["name"] in kw:
+                classes.add("keyword_rule")
+            for d in n["directives"]:
+                if d == "String":
+                    classes.add("string_rule")
+                if d == "Position":
+                    classes.add("position")
+            walk(n["body"], frozenset())
+        elif "CharClass" in r:
+            classes.add("char_rule")
+            if r["CharClass"]["name"] in kw:
+                classes.add("keyword_rule")
+        elif "Extern" in r:
+            classes.add("extern_rule")
+    return classes
+
+
+def run_c03(prop, tier, seed):
+    main = _main()
+    t0 = time.time()
+    if not ws.build_tools(("genner",)):
+        return 2
+    st = dict(quick=dict(count=320, waves=1), thorough=dict(count=320, waves=8))[tier]
+    violations = []
+    infra = None
+    evaluations = 0
+    nontrivial = set()
+    classes = {}
+    samples = []
+    gen_rejected = {}
+    fe_rejected = 0
+    for wave in range(st["waves"]):
+        out = batch.generate("types", seed, st["count"], tier, wave)
+        if out is None:
+            infra = "genner failed"
+            break
+        with open(os.path.join(out, "failures.json")) as f:
+            fails = json.load(f)
+        with open(os.path.join(out, "gen_stats.json")) as f:
+            gs = json.load(f)
+        with open(os.path.join(out, "models.json")) as f:
+            models = json.load(f)
+        for k, v in gs["plan_stats"].get("rejected", {}).items():
+            gen_rejected[k] = gen_rejected.get(k, 0) + v
+        for fl in fails:
+            if fl["stage"] == "front":
+                fe_rejected += 1
+                continue
+            evaluations += 1
+            violations.append(dict(property="C03", kind="generator_" + fl["stage"], grammar_text=fl["text"], spec=fl["spec"],
+                                   signature=fl["stage"],
+                                   message="the code generator %s on a well-formed grammar within the documented restrictions: %s" % (
+                                       "panics" if fl["stage"] == "codegen_panic" else "fails", fl["message"][:300]),
+                                   expected="generated code", observed=fl["message"][:500]))
+        for gid, hits in gs.get("scan_hits", {}).items():
+            m = next((m for m in models if m["id"] == gid), None)
+            violations.append(dict(property="C03", kind="scan", grammar_text=m["text"] if m else "", spec=m["spec"] if m else None,
+                                   signature="scan:" + ",".join(sorted(set(hits))),
+                                   message="generated code contains the token(s) %s" % sorted(set(hits)), expected="no unsafe/static/thread_local",
+                                   observed=",".join(hits)))
+        rc, errors, other = batch.build(out)
+        by_id = {m["id"]: m for m in models}
+        for gid, errs in sorted(errors.items()):
+            m = by_id.get(gid)
+            if m is None:
+                continue
+            sig = errs[0].split(" ")[0]
+            violations.append(dict(property="C03", kind="uncompilable", grammar_text=m["text"], spec=m["spec"], signature=sig,
+                                   message="generated code (or its exact-type assertions from the documented mapping) does not compile: %s" % errs[0][:300],
+                                   expected="compiles", observed="; ".join(e[:200] for e in errs[:4])))
+        if rc != 0 and not errors:
+            infra = "batch build failed without attributable errors: %s" % (other[:3],)
+            break
+        for m in models:
+            evaluations += 1
+            cl = _type_classes(m["spec"])
+            for c in cl:
+                classes[c] = classes.get(c, 0) + 1
+            role = m["spec"].get("role", "")
+            classes["config " + role] = classes.get("config " + role, 0) + 1
+            if cl & {"field_under_optional", "field_under_closure", "field_under_choice", "boxed", "override", "keyword_field", "keyword_rule"}:
+                nontrivial.add(hashlib.sha1(m["text"].encode()).hexdigest())
+                if len(samples) < 8 and m["id"] not in errors:
+                    samples.append(dict(grammar=m["text"], config=role, classes=sorted(cl), compiled=True))
+        if violations:
+            break
+    coverage = dict(evaluations=evaluations, distinct_nontrivial=len(nontrivial), rule=C03_RULE, samples=samples, classes=classes,
+                    gen_rejected=gen_rejected, front_end_rejected=fe_rejected)
+    return main.finish(prop, tier, seed, t0, coverage, violations, main.BATCH_ASSUMPTIONS, infra)
+
+
+HANDLERS = {"C03": run_c03}
